@@ -1,4 +1,4 @@
-import Pyrtma.Proofs.ValidatorsArr
+import Pyrtma.Proofs.ValidatorsCanon
 /-!
 # C09 — field validation is sound, complete and atomic
 
@@ -653,6 +653,39 @@ theorem model_meets_spec_accepted (ty : FTy) (hF : FloatOK ty.vk) (old : Bytes) 
   intro c hc
   simp only [clauses, List.mem_cons, List.mem_nil_iff, or_false] at hc
   rcases hc with rfl | rfl | rfl <;> simp [h1, h2]
+
+/-! ## `get (set x v) = canon v` -/
+
+/-- **Read-back equals the value assigned, from the Spec alone** (integers exactly, bools as 0/1, a length-one `bytes` as
+that byte, strings up to the NUL, structs byte for byte; every non-float kind): whatever *observation* satisfies the
+Spec's `inDom` and `postOk` - the model's or the implementation's - has read back `canonVal ty key v`. -/
+theorem spec_readback_is_canon (ty : FTy) (hnf : ∀ k, ty.vk ≠ .flt k) (key : Key) (v : PyVal) (post : Bytes)
+    (rb : List Scalar) (hw : valWF ty.vk v = true)
+    (hraw : ∀ cls vk n, ty = .arr cls vk n → ∀ c k m r, key = .whole → v = .arr c k m (some r) →
+      r.length = vk.esize * n)
+    (hd : inDom ty key v = true) (hp : postOk ty key v post rb = true) :
+    ∀ l, canonVal ty key v = some l → rb = l :=
+  spec_readback_canon ty hnf key v post rb hw hraw hd hp
+
+/-- **`get (set x v) = canon v` for the model**: after an accepted assignment the field reads back the canonical value
+of what was assigned - every non-float field kind, every key (index, any slice shape, whole), every value. -/
+theorem accepted_readback_canon (ty : FTy) (hnf : ∀ k, ty.vk ≠ .flt k) (old : Bytes) (key : Key) (v : PyVal)
+    (post : Bytes) (hty : tyWF ty = true) (hold : old.length = ty.size) (hw : valWF ty.vk v = true)
+    (h : setField true ty old key v = (post, none)) :
+    ∀ l, canonVal ty key v = some l → readField ty key post = l := by
+  obtain ⟨hd, hp, _⟩ := accepted_sound_nonfloat ty hnf old key v post hty hold hw h
+  refine spec_readback_canon ty hnf key v post _ hw ?_ hd hp
+  intro cls vk n hty' c k m r hk hv
+  subst hty' hk hv
+  exact accepted_raw_size cls vk (fun k' hk' => absurd hk' (hnf k')) n old c k m r post
+    (by simpa [tyWF] using hty) hw h
+
+/-- integers in particular: an accepted slice assignment of in-range Python ints reads back those very ints -/
+example : canonVal (.arr .intArray (.int .i8) 3) (.slice none none (some (-1)))
+    (.seq .tuple [.int 1, .bool true, .int (-128)]) = some [.int 1, .int 1, .int (-128)] := by decide
+example : canonVal (.arr .byteArray .byte 4) (.slice (some 0) none (some 2)) (.sc (.bytes [65, 66]))
+    = some [.bytes [65], .bytes [66]] := by decide
+example : canonVal (.str 6) .whole (.sc (.str [104, 105, 0, 106])) = some [.str [104, 105]] := by decide
 
 /-! ### non-vacuity of the soundness theorems -/
 
